@@ -5,7 +5,8 @@ import re
 
 import z3
 
-from ..symex import (FALSE, GENERIC_MODELS, STD_CMP_MODELS, TRUE, Enum, Exec, Opaque, PyVec, Ref, State, Struct, Tup, Unsupported, bv)
+from ..symex import (FALSE, GENERIC_MODELS, STD_CMP_MODELS, TRUE, Enum, Exec, Opaque, PyVec, Ref, State, Struct, Tup, Unsupported, bv,
+                     deref_val, subcall)
 from ..bytesmodel import BYTES_MODELS, buf_of
 
 PAGE = 8192
@@ -232,7 +233,342 @@ def run_delete_cell(nkeys):
     return run
 
 
+def page_id(n):
+    return Struct("PageId", {0: bv(n, 64)})
+
+
+def pid_val(v):
+    if isinstance(v, (Struct, Enum)) and len(v.fields) == 1:
+        return v.fields[0]
+    return v
+
+
+def run_descent(distinct):
+    def run(mf, tier):
+        call.queries, call.solver_time, call.inlined = 0, 0.0, set()
+        st = State()
+        a, b, c, d, t = [z3.BitVec(x, 8) for x in ("a", "b", "c", "d", "t")]
+        st.pc += [z3.ULE(a, b), z3.ULE(b, c), z3.ULE(c, d)]
+        if distinct:
+            st.pc.append(z3.ULT(b, c))      # the split separated distinct keys
+        page = new_page(st, "root")
+        ex, paths = call(mf, IMPL + r"init_internal\(", [page, page_id(10)], st)
+        states = [p.st for p in ok_paths(paths, "init_internal")]
+        nxt = []
+        for s in states:
+            s.env["$sep"] = PyVec([c])          # separator = first key of the right leaf, as BTree::insert's split sets it
+            ex, paths = call(mf, IMPL + r"internal_insert_at\(", [page, bv(0, 64), Ref("$sep"), page_id(11)], s)
+            for p in ok_paths(paths, "internal_insert_at"):
+                if not (isinstance(p.ret, Enum) and p.ret.variant == "Ok"):
+                    raise Unsupported("internal_insert_at failed: %r" % (p.ret,))
+                nxt.append(p.st)
+        failed, n = [], 0
+        for s in nxt:
+            s.env["$target"] = PyVec([t])
+            ex, paths = call(mf, IMPL + r"internal_child_for_key\(", [page, Ref("$target")], s)
+            for p in ok_paths(paths, "internal_child_for_key"):
+                n += 1
+                if not (isinstance(p.ret, Enum) and p.ret.variant == "Ok"):
+                    failed.append("descent fails on a well-formed internal page: %r" % (p.ret,))
+                    continue
+                child = pid_val(p.ret.fields[0].fields[0])
+                # left leaf holds [a, b], right leaf [c, d]; a cursor positioned in the right leaf never sees the left leaf again,
+                # so whenever the left leaf holds an entry >= target (b >= t) the descent must go left (page 10)
+                bad = z3.And(z3.UGE(b, t), child != 10)
+                if ex.feasible(p.pc, bad):
+                    m = ex.model(p.pc, bad)
+                    vals = {x: m.eval(v, model_completion=True).as_long() for x, v in (("a", a), ("b", b), ("c", c), ("d", d), ("t", t))}
+                    failed.append("after a split into [a,b | c,d] with separator c, the descent for a target that still has an entry in the left leaf "
+                                  "goes right (that entry is never found), e.g. %s" % vals)
+                if not ex.entails(p.pc, z3.Or(child == 10, child == 11)):
+                    failed.append("descent returns a page that is not a child of the internal page")
+        res = {"paths": n, "queries": call.queries, "solver_time_s": round(call.solver_time, 3),
+               "sample": ["two-level tree [a,b | c,d], separator c, all five bytes symbolic%s" % (", b < c" if distinct else "")],
+               "functions": ["index::btree::Page::{init_internal, internal_insert_at, internal_child_for_key} + helpers"]}
+        if failed:
+            res.update({"status": "fail", "failed": sorted({re.sub(r", e\.g\. .*$", "", f) for f in failed}), "reason": "; ".join(sorted(set(failed)))[:400],
+                        "witness_text": sorted(set(failed))[:3]})
+        else:
+            res["status"] = "pass"
+        return res
+    return run
+
+
+# ---------------------------------------------------------------- BTree::delete on a page store
+def store_models(store_key="$store"):
+    def m_read_page(ex, st, a, dst, callee):
+        pid = z3.simplify(pid_val(a[1]))
+        if not z3.is_bv_value(pid):
+            raise Unsupported("read_page of a symbolic page id")
+        img = st.env.get("%s_%d" % (store_key, pid.as_long()))
+        if img is None:
+            return [(Enum("Err", [Enum("PageNotAllocated", [pid])]), [], "read_page(%d) -> not allocated" % pid.as_long())]
+        return [(Enum("Ok", [img]), [], None)]
+
+    def m_write_page(ex, st, a, dst, callee):
+        pid = z3.simplify(pid_val(a[1]))
+        if not z3.is_bv_value(pid):
+            raise Unsupported("write_page of a symbolic page id")
+        img = deref_val(ex, st, a[2]) if isinstance(a[2], Ref) else a[2]
+        st.env["%s_%d" % (store_key, pid.as_long())] = img
+        st.env["$writes"] = st.env.get("$writes", []) + [pid.as_long()]
+        return [(Enum("Ok", [Tup([])]), [], None)]
+
+    def m_range_collect(ex, st, a, dst, callee):
+        r = a[0]
+        if not (isinstance(r, Struct) and r.name == "Range"):
+            return None
+        s0, e0 = z3.simplify(r.fields[0]), z3.simplify(r.fields[1])
+        if not (z3.is_bv_value(s0) and z3.is_bv_value(e0)):
+            raise Unsupported("collect of a symbolic range")
+        return [(PyVec([bv(i, 64) for i in range(s0.as_long(), e0.as_long())]), [], None)]
+
+    def m_binary_search_by(ex, st, a, dst, callee):
+        """std's slice::binary_search_by (the branch-light version of current std) with the crate-local comparator closure executed for every probe."""
+        m = re.search(r"\{closure@([^}]*)\}", callee)
+        vec = deref_val(ex, st, a[0]) if isinstance(a[0], Ref) else a[0]
+        if not m or not isinstance(vec, PyVec):
+            return None
+        fn = ex.mf.resolve_closure(m.group(1))
+        if fn is None:
+            return None
+        clos = a[1]
+        st.env["$bs_closure"] = clos
+        items = vec.items
+        results = []
+
+        def probe(i, cons):
+            st.env["$bs_elem"] = items[i]
+            s2 = st.fork()
+            s2.pc += cons
+            r = subcall(ex, s2, fn, [Ref("$bs_closure"), Ref("$bs_elem")])
+            if isinstance(r, str):
+                raise Unsupported("comparator closure can panic: " + r)
+            return [(val.variant, cons + extra) for val, extra in r]
+
+        def go(base, size, cons):
+            if size == 0:
+                results.append((Enum("Err", [bv(0, 64)]), cons, None))
+                return
+            if size > 1:
+                half = size // 2
+                mid = base + half
+                for o, c2 in probe(mid, cons):
+                    go(base if o == "Greater" else mid, size - half, c2)
+                return
+            for o, c2 in probe(base, cons):
+                if o == "Equal":
+                    results.append((Enum("Ok", [bv(base, 64)]), c2, None))
+                else:
+                    results.append((Enum("Err", [bv(base + (1 if o == "Less" else 0), 64)]), c2, None))
+        go(0, len(items), [])
+        return results
+
+    def m_tuple_cmp(ex, st, a, dst, callee):
+        """<(&[u8], u64) as Ord>::cmp: lexicographic on (bytes, integer)."""
+        from ..bytesmodel import lex_eq, lex_lt
+        x = deref_val(ex, st, a[0]) if isinstance(a[0], Ref) else a[0]
+        y = deref_val(ex, st, a[1]) if isinstance(a[1], Ref) else a[1]
+        if not (isinstance(x, Tup) and isinstance(y, Tup)):
+            return None
+        xb, yb = buf_of(ex, st, x.fields[0]).items, buf_of(ex, st, y.fields[0]).items
+        xv, yv = x.fields[1], y.fields[1]
+        lt = z3.Or(lex_lt(xb, yb), z3.And(lex_eq(xb, yb), z3.ULT(xv, yv)))
+        eq = z3.And(lex_eq(xb, yb), xv == yv)
+        return [(Enum("Less"), [lt], None), (Enum("Equal"), [eq], None), (Enum("Greater"), [z3.Not(z3.Or(lt, eq))], None)]
+
+    return [(r"Pager::read_page$", m_read_page), (r"Pager::write_page$", m_write_page),
+            (r"<std::ops::Range<usize> as Iterator>::collect::<Vec<usize>>$", m_range_collect),
+            (r"slice::<impl \[usize\]>::binary_search_by::<", m_binary_search_by),
+            (r"^<\(&\[u8\], u64\) as Ord>::cmp$", m_tuple_cmp)]
+
+
+def run_tree_delete(order):
+    """Single-leaf tree holding two pairs with the SAME key, inserted through the real lower-bound insert (newest first)."""
+    def run(mf, tier):
+        call.queries, call.solver_time, call.inlined = 0, 0.0, set()
+        st = State()
+        k = z3.BitVec("key", 8)
+        p_old, p_new = z3.BitVec("p_old", 64), z3.BitVec("p_new", 64)
+        st.pc.append(z3.ULT(p_old, p_new) if order == "increasing" else z3.UGT(p_old, p_new))
+        page = new_page(st, "leaf")
+        ex, paths = call(mf, IMPL + r"init_leaf\(", [page], st)
+        states = [p.st for p in ok_paths(paths, "init_leaf")]
+        for pay in (p_old, p_new):
+            nxt = []
+            for s in states:
+                s.env["$key"] = PyVec([k])
+                ex, paths = call(mf, IMPL + r"leaf_lower_bound\(", [page, Ref("$key")], s)
+                for p in ok_paths(paths, "leaf_lower_bound"):
+                    idx = z3.simplify(p.ret.fields[0])
+                    for j in range(3):
+                        if ex.feasible(p.pc, p.ret.fields[0] == j):
+                            s2 = p.st.fork()
+                            s2.pc.append(p.ret.fields[0] == j)
+                            ex2, paths2 = call(mf, IMPL + r"leaf_insert_at\(", [page, bv(j, 64), Ref("$key"), pay], s2)
+                            nxt += [q.st for q in ok_paths(paths2, "leaf_insert_at")]
+            states = nxt
+        failed, n = [], 0
+        tree_delete = r"^fn btree::<impl at [^>]*>::delete\(_1: &mut BTree"
+        for s in states:
+            for victim, survivor, which in ((p_old, p_new, "older"), (p_new, p_old, "newer")):
+                s2 = s.fork()
+                s2.env["$store_5"] = s2.env["$buf_leaf"]
+                s2.env["$tree"] = Struct("BTree", {0: page_id(5)})
+                s2.env["$key"] = PyVec([k])
+                ex, paths = call(mf, tree_delete, [Ref("$tree"), Opaque("pager"), Ref("$key"), victim], s2, extra_models=store_models())
+                for p in ok_paths(paths, "BTree::delete"):
+                    n += 1
+                    found = isinstance(p.ret, Enum) and p.ret.variant == "Ok" and ex.entails(p.pc, p.ret.fields[0] == TRUE)
+                    if not found:
+                        m = ex.model(p.pc)
+                        failed.append("BTree::delete does not find a stored (key,payload) pair among equal keys (the %s of two pairs), e.g. payloads old=%s new=%s"
+                                      % (which, m.eval(p_old, model_completion=True), m.eval(p_new, model_completion=True)))
+                        continue
+                    # exactly the victim is gone: the stored page now holds one cell = survivor
+                    s3 = p.st.fork()
+                    s3.env["$buf_chk"] = s3.env["$store_5"]
+                    s3.env["$page_chk"] = Struct("Page", {0: Ref("$buf_chk")})
+                    cnt = cell_count_of(mf, Ref("$page_chk"), s3)
+                    if not ex.entails(p.pc, cnt == 1):
+                        failed.append("BTree::delete does not remove exactly one pair")
+                        continue
+                    for s4, cells in read_cells(mf, Ref("$page_chk"), s3, 1):
+                        kb, pv = cells[0]
+                        if not ex.entails(s4.pc, z3.And(kb[0] == k, pv == survivor)):
+                            failed.append("BTree::delete removes the other pair of two equal keys (asked for the %s one)" % which)
+        res = {"paths": n, "queries": call.queries, "solver_time_s": round(call.solver_time, 3),
+               "sample": ["single-leaf tree, two pairs with one symbolic key, payloads inserted in %s order, either pair deleted" % order],
+               "functions": ["index::btree::BTree::delete + delete::{closure#0} + Page kernels; std binary_search_by executed with the real comparator"]}
+        if failed:
+            res.update({"status": "fail", "failed": sorted({re.sub(r", e\.g\. .*$", "", f) for f in failed}), "reason": "; ".join(sorted(set(failed)))[:400],
+                        "witness_text": sorted(set(failed))[:3]})
+        else:
+            res["status"] = "pass"
+        return res
+    return run
+
+
+TREE = r"^fn btree::<impl at [^>]*>::"
+CURSOR_MODELS = None
+
+
+def scan(mf, st, tree_ref, from_key_ref, limit, models):
+    """cursor_lower_bound(from_key) then up to `limit` (key, payload) pairs through the real cursor; returns [(state, [(key bytes, payload)], exhausted)]."""
+    ex, paths = call(mf, TREE + r"cursor_lower_bound\(", [tree_ref, Opaque("pager"), from_key_ref], st, extra_models=models, bound=16)
+    out = []
+    for p in ok_paths(paths, "cursor_lower_bound"):
+        if not (isinstance(p.ret, Enum) and p.ret.variant == "Ok"):
+            raise AssertionError("cursor_lower_bound fails: %r" % (p.ret,))
+        s0 = p.st
+        s0.env["$cursor"] = p.ret.fields[0]
+        todo = [(s0, [])]
+        for step in range(limit + 1):
+            nxt = []
+            for s, acc in todo:
+                ex1, ps = call(mf, TREE + r"is_valid\(", [Ref("$cursor")], s, extra_models=models)
+                for q in ok_paths(ps, "cursor.is_valid"):
+                    valid = q.ret.fields[0]
+                    if ex1.entails(q.pc, valid == FALSE):
+                        out.append((q.st, acc, True))
+                        continue
+                    if not ex1.entails(q.pc, valid == TRUE):
+                        raise Unsupported("cursor validity is not decided on this path")
+                    if step == limit:
+                        out.append((q.st, acc, False))
+                        continue
+                    ex2, ks = call(mf, TREE + r"key\(_1: &mut BTreeCursor", [Ref("$cursor")], q.st, extra_models=models)
+                    for kq in ok_paths(ks, "cursor.key"):
+                        kb = buf_of(ex2, kq.st, kq.ret.fields[0]).items
+                        ex3, vs = call(mf, TREE + r"payload\(", [Ref("$cursor")], kq.st, extra_models=models)
+                        for vq in ok_paths(vs, "cursor.payload"):
+                            pv = vq.ret.fields[0]
+                            ex4, adv = call(mf, TREE + r"advance\(", [Ref("$cursor")], vq.st, extra_models=models)
+                            for aq in ok_paths(adv, "cursor.advance"):
+                                nxt.append((aq.st, acc + [(kb, pv)]))
+            todo = nxt
+            if not todo:
+                break
+    return out
+
+
+def run_insert_scan(npairs):
+    """BTree::insert of `npairs` symbolic (1-byte key, payload) pairs in arbitrary order into an empty tree, then a full cursor scan."""
+    def run(mf, tier):
+        call.queries, call.solver_time, call.inlined = 0, 0.0, set()
+        models = store_models()
+        st = State()
+        ks = [z3.BitVec("k%d" % i, 8) for i in range(npairs)]
+        ps = [z3.BitVec("p%d" % i, 64) for i in range(npairs)]
+        page = new_page(st, "root")
+        ex, paths = call(mf, IMPL + r"init_leaf\(", [page], st)
+        states = [p.st for p in ok_paths(paths, "init_leaf")]
+        for s in states:
+            s.env["$store_5"] = s.env["$buf_root"]
+            s.env["$tree"] = Struct("BTree", {0: page_id(5)})
+        failed, n = [], 0
+        try:
+            for i in range(npairs):
+                nxt = []
+                for s in states:
+                    s.env["$ikey%d" % i] = PyVec([ks[i]])
+                    ex, paths = call(mf, TREE + r"insert\(_1: &mut BTree", [Ref("$tree"), Opaque("pager"), Ref("$ikey%d" % i), ps[i]], s,
+                                     extra_models=models, bound=16)
+                    for p in ok_paths(paths, "BTree::insert"):
+                        if not (isinstance(p.ret, Enum) and p.ret.variant == "Ok"):
+                            failed.append("BTree::insert fails on a tree with free space: %r" % (p.ret,))
+                            continue
+                        nxt.append(p.st)
+                states = nxt
+            for s in states:
+                s.env["$from"] = PyVec([bv(0, 8)])
+                for s2, got, exhausted in scan(mf, s, Ref("$tree"), Ref("$from"), npairs + 1, models):
+                    n += 1
+                    chk = Exec(mf.find(IMPL + r"cell_count\("), [], mf=mf)
+                    if not exhausted or len(got) != npairs:
+                        failed.append("a full scan returns %d pairs (%s) after %d inserts" % (len(got), "exhausted" if exhausted else "more pending", npairs))
+                        continue
+                    # sorted by key
+                    for (ka, _), (kb2, _) in zip(got, got[1:]):
+                        if not chk.entails(s2.pc, z3.ULE(ka[0], kb2[0])):
+                            failed.append("a scan does not return pairs in key order")
+                    # multiset equality: some permutation of the inserted pairs matches position-wise
+                    import itertools
+                    perms = []
+                    for perm in itertools.permutations(range(npairs)):
+                        perms.append(z3.And([z3.And(got[pos][0][0] == ks[i], got[pos][1] == ps[i]) for pos, i in enumerate(perm)]))
+                    if not chk.entails(s2.pc, z3.Or(perms)):
+                        failed.append("a scan does not return exactly the inserted (key,payload) pairs")
+                    # newest first among equal keys: if k_i == k_j with i < j (j inserted later) then pair j comes before pair i
+                    for i in range(npairs):
+                        for j in range(i + 1, npairs):
+                            pos_i = [z3.And(got[q][0][0] == ks[i], got[q][1] == ps[i]) for q in range(npairs)]
+                            pos_j = [z3.And(got[q][0][0] == ks[j], got[q][1] == ps[j]) for q in range(npairs)]
+                            later_first = z3.Or([z3.And(pos_j[a], pos_i[b]) for a in range(npairs) for b in range(npairs) if a < b])
+                            cond = z3.Implies(z3.And(ks[i] == ks[j], ps[i] != ps[j]), later_first)
+                            if not chk.entails(s2.pc, cond):
+                                failed.append("among equal keys the most recently inserted pair is not returned first")
+                    call.queries += chk.queries
+        except AssertionError as e:
+            failed.append(str(e))
+        res = {"paths": n, "queries": call.queries, "solver_time_s": round(call.solver_time, 3),
+               "sample": ["%d symbolic pairs inserted through BTree::insert in arbitrary key order, then cursor_lower_bound([0]) + full scan" % npairs],
+               "functions": ["index::btree::BTree::{insert, cursor_lower_bound}, BTreeCursor::{is_valid, key, payload, advance}, Page kernels"]}
+        if failed:
+            res.update({"status": "fail", "failed": sorted(set(failed)), "reason": "; ".join(sorted(set(failed)))[:400]})
+        else:
+            res["status"] = "pass"
+        return res
+    return run
+
+
 TARGETS = [
+    {"name": "c26_o7_q_e2_insert_then_scan_2_pairs", "crate": "nervusdb-storage", "run": run_insert_scan(2)},
+    {"name": "c26_o7_t_e2_insert_then_scan_3_pairs", "crate": "nervusdb-storage", "run": run_insert_scan(3)},
+    {"name": "c26_o4_q_e2_descent_after_split_distinct_keys", "crate": "nervusdb-storage", "run": run_descent(True)},
+    {"name": "c26_o4_q_e2_descent_after_split_any_keys", "crate": "nervusdb-storage", "run": run_descent(False)},
+    {"name": "c26_o5_q_e2_tree_delete_equal_keys_decreasing_payloads", "crate": "nervusdb-storage", "run": run_tree_delete("decreasing")},
+    {"name": "c26_o5_q_e2_tree_delete_equal_keys_increasing_payloads", "crate": "nervusdb-storage", "run": run_tree_delete("increasing")},
     {"name": "c26_o2_q_e2_insert_at_lower_bound_2_keys", "crate": "nervusdb-storage", "run": run_insert(2)},
     {"name": "c26_o2_t_e2_insert_at_lower_bound_3_keys", "crate": "nervusdb-storage", "run": run_insert(3)},
     {"name": "c26_o6_q_e2_delete_cell_3_keys", "crate": "nervusdb-storage", "run": run_delete_cell(3)},
